@@ -203,12 +203,14 @@ def run(chk, prog):
     loop = prog.nested(outer, "eval_jaxpr_iterate_cps")
     evk = Evaluator(prog)
     rk = evk.eval_fn(loop, CI.module, CI, env0={"jaxpr": P("jaxpr"), "out_tree": P("out_tree")})
-    konts = [x for x in subterms(rk.ret) if evk.closure_of(x) is not None and evk.closure_of(x).name == "_kont"]
+    LN = loop.name
+    # the continuation is found by its role: the closure handed to cps_prim.handle(<kont>, ...)
+    konts = [x[2][0] for x in subterms(rk.ret) if is_mcall(x, "handle") and x[2] and evk.closure_of(x[2][0]) is not None]
     konts = list(dict.fromkeys(konts))
     okk = len(konts) >= 1
     der = "no continuation closure"
     if okk:
-        evk.closures[konts[0][1]].env["eval_jaxpr_iterate_cps"] = ("global", "$loop")
+        evk.closures[konts[0][1]].env[LN] = ("global", "$loop")
         kr = evk.apply(konts[0], [("star", P("$a"))], module=CI.module, cls=CI)
         der = show(kr)[:300]
         EQ = P("eqns")
@@ -222,7 +224,7 @@ def run(chk, prog):
                 expected="eval_jaxpr_iterate_cps(eqns[eqn_idx + 1:], env.copy(), eqn.outvars, tree_leaves(args), rebind=True)", where=where)
     arms = [(c, t) for c, t in rk.returns]
     handle = [t for c, t in arms if is_mcall(t, "handle")]
-    reb = [t for c, t in arms if is_t(t, "call") and (evk.closure_of(t[1]) is not None or is_call(t, "eval_jaxpr_iterate_cps")) and dict(t[3]).get("rebind", C(True)) == C(True)]
+    reb = [t for c, t in arms if is_t(t, "call") and (evk.closure_of(t[1]) is not None or is_call(t, LN)) and dict(t[3]).get("rebind", C(True)) == C(True)]
     okh2 = len(handle) == 1 and handle[0][2][0] in konts and len(reb) >= 1
     chk.require(okh2, "CPS-CONT", "eval_jaxpr_iterate_cps/record", "first visit records through handle(kont, *args); re-bound visits just continue", derived=f"{len(handle)} handle arm(s), {len(reb)} rebind arm(s)", expected="cps_prim.handle(_kont, *args) / _kont(cps_prim(*args))", where=where)
     from ..interp import reader_consts_ok
